@@ -85,7 +85,7 @@ def _c11_play(scenario, sigma, params, streams, perm_seed):
             def gen_cb(m, hist=hist, si=si):
                 return gen.gen_session(hist, m, params, si)
 
-        if sdesc is not None and perm_seed is not None and not any(op["k"] in ("reg", "insfn") for op in sdesc["ops"]):
+        if sdesc is not None and perm_seed is not None and not any(op["k"] in ("reg", "insfn", "extern") for op in sdesc["ops"]):
             # permute the registration order of modifications that target
             # different blocks (order inside one block is kept)
             spans, att = driver.real_view(world, model)
